@@ -435,7 +435,7 @@ def main(ctx):
                 sh.failures.append({"sig": f.sig, "what": f.what, "replay": f.replay})
         ctx.total.merge(sh)
     n = 150 if quick else 2500
-    stop_at = time.time() + (80 if quick else 1600)
+    stop_at = time.time() + (80 if quick else 900)
     ctx.pmap(worker, [(ctx.seed * 100003 + i, n, known, stop_at, 5 if quick else 7) for i in range(common.NPROC)])
     ctx.rule = ("case = generated program over all statement kinds (depth <= 2); every input up to length 5 (quick) / 7 (thorough) over <= 6 "
                 "byte-class representatives is run through the abstract machine and the reference interpreter and compared (evaluations = inputs), "
